@@ -84,6 +84,7 @@ def plan(tier):
         jobs.append(("ptbytes", "same", None, [hx(v) for v in scal[:4]], 0))
     else:
         jobs.append(("mult", "same", None, [hx(scal[0]), hx(scal[2]), hx(0)], 0))
+        jobs.append(("ptbytes", "same", None, [hx(scal[2]), hx(scal[0])], 0))
     return jobs
 
 
@@ -119,6 +120,15 @@ def attempt(chk, tier, ex, leak, nm, jobs, tag):
         "ninvert": [dict(sym=pre + "/fiat.sm2ScalarSquare", n=sc_.get("declared_squares", -1)),
                     dict(sym=pre + "/fiat.sm2ScalarMul", n=sc_.get("declared_multiplies", -1))],
     }
+    # the signing entry point inverts 1+d by the fixed exponentiation, once (README: "inversion by a fixed exponentiation
+    # instead of the Euclidean algorithm"): a variable-time modular inverse from math/big in its place would leave the
+    # scoped traces equal across keys, so the use of the chain itself is part of the schedule
+    sched["signhashed"] = [dict(sym=pre + "/fiat.sm2ScalarFermatInvert_FiatAC", n=1),
+                           dict(sym=pre + "/fiat.sm2ScalarSquare", n=sc_.get("declared_squares", -1)),
+                           dict(sym=pre + ".ScalarBaseMult", n=1)]
+    # the safe encoding of a secret-derived point (public key derivation) inverts z the same way (twice: Bytes, GetAffineX)
+    sched["ptbytes"] = [dict(sym=pre + "/fiat.sm2FermatInvert_FiatAC", n=2),
+                        dict(sym=pre + "/fiat.sm2Square", n=2 * fc.get("declared_squares", -1))]
     # an inversion routine that could not be read as an addition chain has no prescribed schedule
     sched = {k: v for k, v in sched.items() if all(e["n"] >= 0 for e in v)}
     for ji, (prim, mode, pub, secrets, limit) in enumerate(jobs):
